@@ -175,6 +175,12 @@ def probe_exact(name, D, N, dt, seed, forced=None):
             e2 = float(np.max(np.abs(np.asarray(cur) - one)))
             extra["semigroup_err"] = e2
             ok = ok and e2 <= 3 * tol + 1e-9 * float(np.max(np.abs(one))) + 1e-13 * sc * float(np.exp(max(gall * n, 0.0)))
+            # … also when the n calls are made by the library's own sub-stepping wrapper
+            import exponax as ex
+            rep = np.asarray(ex.RepeatedStepper(st, n)(jnp.asarray(u0)))
+            e2r = float(np.max(np.abs(rep - one)))
+            extra["semigroup_err_repeated_stepper"] = e2r
+            ok = ok and e2r <= 3 * tol + 1e-9 * float(np.max(np.abs(one))) + 1e-13 * sc * float(np.exp(max(gall * n, 0.0)))
         if name in ("Advection", "Dispersion"):
             _forced(forced)
             spec_m = S.registry()[name](np.random.default_rng(seed), D, N, 0)
@@ -189,7 +195,9 @@ def probe_exact(name, D, N, dt, seed, forced=None):
             "kwargs": {k: str(v) for k, v in spec.kwargs.items()}}
 
 
-def probe_wave(D, N, dt, seed, L=None):
+def probe_wave(D, N, dt, seed, L=None, repeats=1):
+    """`repeats` > 1: the analytic solution after repeats·dt against `repeats` sub-steps of dt made by `RepeatedStepper`
+    (n calls with dt = one call with n·dt), with a velocity of non-zero mean (the mean height drifts linearly)"""
     import jax.numpy as jnp
     import exponax as ex
     rng = np.random.default_rng(seed)
@@ -198,6 +206,11 @@ def probe_wave(D, N, dt, seed, L=None):
     st = ex.stepper.Wave(D, L, N, dt, speed_of_sound=c)
     modes_h = _mode_state(rng, D, N, 2)
     modes_v = _mode_state(rng, D, N, 2)
+    if repeats > 1:
+        st = ex.RepeatedStepper(st, repeats)
+        modes_v[0] = ([0] * D, 0.7 + abs(modes_v[0][1]), 0.0)     # mean velocity
+        modes_h[0] = ([0] * D, modes_h[0][1], 0.0)                # mean height
+        dt = dt * repeats
     x = np.stack(np.meshgrid(*[np.arange(N) * L / N] * D, indexing="ij"))
 
     def field(modes, fh, fv):
@@ -255,6 +268,12 @@ def oracle(ctx, deep):
             if not r["ok"]:
                 fails.append({"key": "C01:exact:Wave", "what": f"Wave (D={D}, N={N}, dt={dt}, L={L if L else 'random in (1,6)'}) differs from the analytic solution: {r}",
                               "probe": "wave", "args": {"D": D, "N": N, "dt": dt, "seed": ctx.seed, "L": L}, "observed": r})
+        for dt, n in ((0.5, 2), (0.13, 5)):
+            r = probe_wave(D, N, dt, ctx.seed, None, n)
+            ctx.count(("oracle_wave_repeated", D, N, dt, n))
+            if not r["ok"]:
+                fails.append({"key": "C01:semigroup:Wave", "what": f"Wave (D={D}, N={N}): {n} sub-steps of dt={dt} (RepeatedStepper) differ from the analytic solution after {n}*dt, mean velocity non-zero: {r}",
+                              "probe": "wave", "args": {"D": D, "N": N, "dt": dt, "seed": ctx.seed, "L": None, "repeats": n}, "observed": r})
     seen, out = set(), []
     for f in fails:
         if f["key"] not in seen:
